@@ -118,6 +118,12 @@ def gen_schedule(rng, car):
     t = [rng.choice(pool) for _ in range(n)]
     if rng.random() < 0.3 and n > 1:
         t[rng.randrange(n)] = t[rng.randrange(n)]     # repeat
+    if rng.random() < 0.3 and n > 1:
+        # two DISTINCT ages that agree to 6-15 digits (a finite-difference pair, ages from float arithmetic): still two rows of their own
+        i, j = rng.sample(range(n), 2)
+        near = t[i] * (1 + rng.choice([1, -1]) * 10 ** rng.uniform(-15, -5.5)) if t[i] > 0 else 10 ** rng.uniform(-12, -8.5)
+        if near != t[i] and 0 <= near <= 14000:
+            t[j] = near
     return t
 
 
